@@ -308,10 +308,16 @@ func (c *FnCtx) mapDelete(st *State, u *types.Map, m, k string) {
 
 // storeField handles x.f = v where x is a pointer or an addressable struct.
 func (c *FnCtx) storeField(x *ast.SelectorExpr, selInfo *types.Selection, v string, st *State) {
-	if len(selInfo.Index()) != 1 {
-		c.fail(x.Pos(), "store through embedded field path not supported")
-	}
 	bt := c.typeOf(x.X)
+	if len(selInfo.Index()) != 1 {
+		// promoted field of an embedded struct value: rebuild along the path
+		if _, ok := bt.Underlying().(*types.Struct); !ok {
+			c.fail(x.Pos(), "store through embedded field path of a pointer is not supported")
+		}
+		old := c.eval(x.X, st)
+		c.assignTo(x.X, c.structUpdatePath(bt, old, selInfo.Index(), v, x.Pos()), st)
+		return
+	}
 	if pt, ok := bt.Underlying().(*types.Pointer); ok {
 		p := c.eval(x.X, st)
 		c.safety(st, "nilderef", c.src(x), not(eq(p, "0")), x.Pos())
@@ -327,6 +333,20 @@ func (c *FnCtx) storeField(x *ast.SelectorExpr, selInfo *types.Selection, v stri
 		return
 	}
 	c.fail(x.Pos(), "unsupported field store on %s", bt)
+}
+
+func (c *FnCtx) structUpdatePath(t types.Type, old string, path []int, v string, pos token.Pos) string {
+	s, ok := t.Underlying().(*types.Struct)
+	if !ok {
+		c.fail(pos, "embedded field path through non-struct value")
+	}
+	f := s.Field(path[0])
+	if len(path) == 1 {
+		return c.structUpdate(t, old, f.Name(), v)
+	}
+	c.tt.sortOf(t)
+	inner := "(" + c.tt.fieldAcc(t, f.Name()) + " " + old + ")"
+	return c.structUpdate(t, old, f.Name(), c.structUpdatePath(f.Type(), inner, path[1:], v, pos))
 }
 
 func (c *FnCtx) structUpdate(t types.Type, old, field, v string) string {
@@ -836,7 +856,15 @@ func (c *FnCtx) checkInvariants(invs []*Clause, loop ast.Stmt, st *State, phase 
 			}
 			continue
 		}
-		g := c.evalInvariant(cl, loop, st)
+		g, ok := c.tryEvalInvariant(cl, loop, st)
+		if !ok {
+			// the clause no longer binds to this loop (contract drift): reported once as a failed obligation
+			save := c.curProp
+			c.curProp = cl.Prop
+			c.oblige(st, "drift", fmt.Sprintf("loop%d.inv[%d].binds", n, i), "false", pos, cl.Text+"  -- "+cl.Unbound)
+			c.curProp = save
+			continue
+		}
 		save := c.curProp
 		c.curProp = cl.Prop
 		kind := "inv-init"
@@ -853,8 +881,30 @@ func (c *FnCtx) assumeInvariants(invs []*Clause, loop ast.Stmt, st *State) {
 		if cl.Unbound != "" {
 			continue
 		}
-		st.addFact(c.evalInvariant(cl, loop, st))
+		if g, ok := c.tryEvalInvariant(cl, loop, st); ok {
+			st.addFact(g)
+		}
 	}
+}
+
+// tryEvalInvariant evaluates an invariant clause; a clause that cannot be evaluated against the current code
+// (an identifier that no longer resolves, a changed loop form) is marked unbound instead of aborting the function.
+func (c *FnCtx) tryEvalInvariant(cl *Clause, loop ast.Stmt, st *State) (g string, ok bool) {
+	saveSpecEnv, saveSpecMode, saveFr := len(c.specEnv), c.specMode, c.fr
+	defer func() {
+		if r := recover(); r != nil {
+			if u, isU := r.(unsupported); isU {
+				c.specEnv = c.specEnv[:saveSpecEnv]
+				c.specMode = saveSpecMode
+				c.fr = saveFr
+				cl.Unbound = u.msg
+				g, ok = "", false
+				return
+			}
+			panic(r)
+		}
+	}()
+	return c.evalInvariant(cl, loop, st), true
 }
 
 func (c *FnCtx) execFor(x *ast.ForStmt, st *State, label string) Outs {
